@@ -627,6 +627,11 @@ impl BinArchive {
         self.text = new_text;
         self.labels = new_labels;
         self.pointers = new_pointers;
+        for cells in self.cstrings.values_mut() {
+            for cell in cells.iter_mut() {
+                *cell = adjust_pointer(*cell, address, amount_in_bytes, false);
+            }
+        }
         Ok(())
     }
 
@@ -644,6 +649,14 @@ impl BinArchive {
         self.text = new_text;
         self.labels = new_labels;
         self.pointers = new_pointers;
+        let removed = address..(address + amount_in_bytes);
+        for cells in self.cstrings.values_mut() {
+            cells.retain(|cell| !removed.contains(cell));
+            for cell in cells.iter_mut() {
+                *cell = adjust_pointer(*cell, address, amount_in_bytes, true);
+            }
+        }
+        self.cstrings.retain(|_, cells| !cells.is_empty());
         Ok(())
     }
 
@@ -655,6 +668,10 @@ impl BinArchive {
         self.text.retain(|cell, _| *cell < address);
         self.labels.retain(|label_address, _| *label_address < address);
         self.pointers.retain(|cell, _| *cell < address);
+        for cells in self.cstrings.values_mut() {
+            cells.retain(|cell| *cell < address);
+        }
+        self.cstrings.retain(|_, cells| !cells.is_empty());
         Ok(())
     }
 
